@@ -1,7 +1,27 @@
-import AV.Props.C01
+import AV.Props.C01Exact
 import AV.Gen.Impl
 namespace AV.GenProps
 theorem c01_keys : AV.Props.C01.rtKeysB Gen.impl = true := by decide +kernel
 theorem c01_nodup : AV.Props.C01.keysNodupB Gen.impl = true := by decide +kernel
+
+theorem c01_exact : AV.Props.C01.knownExactB Gen.impl = true := by decide +kernel
+
+/-- **C01 (exactness) on the shipped vocabularies**: every canonical document of any nesting depth is reproduced
+exactly by decode → encode -/
+theorem c01_rt_canonical (n : Nat) (k : String) (j : J) (h : AV.RoundTrip.canonB Gen.impl n k j = true) :
+    AV.RoundTrip.rt Gen.impl n k j = j ∧ AV.RoundTrip.rtDoc Gen.impl n k j = AV.RoundTrip.cleanCtx n j :=
+  ⟨AV.Props.C01.rt_canonical Gen.impl c01_keys c01_nodup c01_exact n k j h,
+   AV.Props.C01.rtDoc_canonical Gen.impl c01_keys c01_nodup c01_exact n k j h⟩
+
+/-- the hypothesis is satisfiable: a Note with a nested Person, a list, an unknown null member -/
+def sampleDoc : J := .obj [
+  ("attributedTo", .obj [("id", .str "https://a.example/u"), ("name", .str "u"), ("type", .str "Person")]),
+  ("content", .str "hi"),
+  ("id", .str "https://a.example/n"),
+  ("to", .arr [.str "https://a.example/x", .str "https://a.example/y"]),
+  ("type", .str "Note"),
+  ("x:unknown", .null)]
+
+theorem c01_sample_canonical : AV.RoundTrip.canonB Gen.impl 2 "Note" sampleDoc = true := by decide +kernel
 
 end AV.GenProps
